@@ -31,7 +31,17 @@ def stop():
 
 
 def _floats(v):
-    return [float(t) for t in v]
+    """total: anything that is not a real number is recorded as nan (never raises inside the code under test)"""
+    out = []
+    try:
+        for t in v:
+            try:
+                out.append(float(t))
+            except Exception:
+                out.append(float("nan"))
+    except Exception:
+        pass
+    return out
 
 
 def install():
